@@ -1,4 +1,5 @@
 CONSTANTS
+  Pool = "all"
   MaxLines = 2
   MaxPerLine = 1
   MaxLexemes = 0
